@@ -86,6 +86,25 @@ Fixpoint ren_stmt (st : stmt) : stmt :=
 
 Definition ren_block (b : block) : block := map ren_stmt b.
 
+(* RenameTarget with a `_visit_context` (proposed repair fixes/C09-rename-with-target.diff):
+   the `as x` target is renamed like every other binding *)
+Fixpoint ren_stmt_t (st : stmt) : stmt :=
+  match st with
+  | SAssign p e => SAssign (ren_pat p) (ren_expr e)
+  | SIndexAssign x idx e => SIndexAssign (rho x) (map ren_expr idx) (ren_expr e)
+  | SIf1 c body => SIf1 (ren_expr c) (map ren_stmt_t body)
+  | SIf c ift iff => SIf (ren_expr c) (map ren_stmt_t ift) (map ren_stmt_t iff)
+  | SWhile c body => SWhile (ren_expr c) (map ren_stmt_t body)
+  | SFor p it body => SFor (ren_pat p) (ren_expr it) (map ren_stmt_t body)
+  | SContext x e body => SContext (option_map rho x) (ren_expr e) (map ren_stmt_t body)
+  | SAssert e => SAssert (ren_expr e)
+  | SEffect e => SEffect (ren_expr e)
+  | SReturn e => SReturn (ren_expr e)
+  | SPass => SPass
+  end.
+
+Definition ren_block_t (b : block) : block := map ren_stmt_t b.
+
 (* every named with-target is left in place by rho *)
 Fixpoint wt_ok (st : stmt) : bool :=
   match st with
